@@ -21,13 +21,30 @@ pub open spec fn naturally_aligned(fs: Seq<Field>, ctx: &BindgenContext, i: int)
 }
 """
 
+IS_PACKED_INV = [
+    "flc.all() == self.s_known_layouts(ctx) && 0 <= flc.pos() <= flc.all().len()",
+    "layout == Some(parent_layout)",
+    "packed == (exists|i: int| 0 <= i < flc.pos() && (#[trigger] self.s_known_layouts(ctx)[i]).align > parent_layout.align)",
+]
+
 UNIT = {
     "name": "packed",
     "env": [os.path.join(ENV, "packed_env.rs")],
-    "declared_trusted": {r"external_body": 9},
+    "declared_trusted": {r"external_body": 13},
     "items": [
         {"kind": "struct", "file": "bindgen/ir/layout.rs", "name": "Layout", "prefix": "#[derive(Clone, Copy, PartialEq, Eq)]"},
         {"kind": "raw", "label": "packed_spec", "text": SPEC},
+        {"kind": "fn", "file": "bindgen/ir/comp.rs", "name": "is_packed", "impl": r"^impl CompInfo$", "impl_nth": 0,
+         "impl_header": "impl CompInfo", "impl_name": "CompInfo", "ret": "r",
+         "subst": [("self.each_known_field_layout(ctx, |layout| {",
+                    "let mut flc = KnownLayoutCursor::new(self, ctx); while flc.has_next() invariant " + ", ".join(IS_PACKED_INV) + " decreases flc.all().len() - flc.pos() { let layout = flc.next_item();", 1, "R16"),
+                   ("packed = packed || layout.align > parent_layout.align; });", "packed = packed || layout.align > parent_layout.align; }", 1, "R16")],
+         "ensures": [
+             # property C02: a record is treated as packed exactly when the attribute says so, or its C layout
+             # cannot be reproduced otherwise (a member more aligned than the record; a vtable in a 1-aligned record)
+             "r == (self.packed_attr || (layout.is_some() && ((exists|i: int| 0 <= i < self.s_known_layouts(ctx).len() && (#[trigger] self.s_known_layouts(ctx)[i]).align > layout.unwrap().align) || (self.has_own_virtual_method && layout.unwrap().align == 1))))",
+         ],
+         },
         {"kind": "fn", "file": "bindgen/ir/comp.rs", "name": "already_packed", "impl": r"^impl CompInfo$", "impl_nth": 0,
          "impl_header": "impl CompInfo", "impl_name": "CompInfo", "ret": "r",
          "subst": [("for field in self.fields()", "let mut it = SliceCursor::new(self.fields()); while it.has_next()", 1, "R13")],
